@@ -105,6 +105,37 @@ pub fn trial(prop: &str, i: u64, rng: &mut Rng, out: &mut Outcome, dir: &std::pa
             }
         }
     }
+    // an honest member of both groups cross-posts ONE rumor (same id) to both: each group keeps its copy
+    if rng.chance(50) {
+        a.w.t += 1;
+        let mut rumor: UnsignedEvent = EventBuilder::new(Kind::Custom(9), format!("cross-post-{i}")).custom_created_at(Timestamp::from(a.w.base_ts + 1)).build(a.w.clients[h].pk());
+        rumor.ensure_id();
+        for grp in [g, g2] {
+            mdk_core::verif::set_created_at(Some(a.w.t));
+            let gidx = a.w.gid(grp);
+            if let Ok(ev) = with_mdk!(a.w.clients[h].mdk, x => x.create_message(&gidx, rumor.clone())) {
+                wrapper_author.insert(ev.id, h);
+                let at = a.w.clients[h].state(grp, &gidx).unwrap();
+                let idx = a.w.log.len();
+                a.w.log.push(Pub { ev, kind: PubKind::App, author: h, g: grp, at, refs: vec![], what: "cross-posted".into(), rumor: Some(rumor.clone()), mode: OwnMode::Echo, welcomes: vec![], adversarial: false });
+                for r in [v, h] {
+                    a.w.deliver(r, idx, OwnMode::Echo);
+                }
+            }
+        }
+        out.count("cross_posted_rumors");
+        // both receivers hold it in BOTH groups
+        for r in [v, h] {
+            for grp in [g, g2] {
+                let has = stored(&a.w, r, grp).iter().any(|m| m.id == rumor.id.unwrap());
+                if !has {
+                    out.violation(format!("{prop}|cross-posted-message-missing-in-one-group|unexplained|attack=none"), format!("c{r} does not hold the cross-posted rumor in group g{grp} after it was stored in both groups"), json!({"kind": "c04", "scenario": i, "trace": trace_tail(&a.w, 20)}));
+                    a.w.cleanup();
+                    return;
+                }
+            }
+        }
+    }
     let receivers = [v, h];
     let mut shadows: Vec<BTreeMap<(usize, EventId), Shadow>> = receivers.iter().map(|c| shadow_of(&a.w, *c)).collect();
     let apk = a.w.clients[atk].pk();
